@@ -670,6 +670,44 @@ def length_gates(ctx: Ctx, rep: Report, rid: str = "R06.9") -> None:
     rep.note(f"{rid} {len(gates)} functions bound the length of a text; {len(sites)} places where the bound meets an object's text")
 
 
+def header_round_trip(ctx: Ctx, rep: Report, rid: str = "R06.14") -> None:
+    """The header an ACL writes is read back to the same type and name: the writer (`Acl._cfg_acl_name`) and the reader
+    (`Acl._parse_type_name`) are evaluated by the constant folder for each platform, type and a list of witness names -
+    names that contain the type words, punctuation, digits - and the reader must return what the writer was given."""
+    from ..fold import RaisesValue
+
+    rep.rule(rid)
+    w = ctx.prog.find_func("Acl._cfg_acl_name")
+    r = ctx.prog.find_func("Acl._parse_type_name")
+    if w is None or r is None or len(r.params) < 2:
+        rep.note(f"{rid} header writer / reader not found under their names (not judged; R06.1 covers the header by patterns)")
+        return
+    names = ["NAME", "mgmt-extended-v2", "extended-in", "standard1", "my.standard.acl", "EDGE_OUT-1", "v6:in/1", "extendedX"]
+    combos = [("ios", "extended"), ("ios", "standard"), ("nxos", "extended")]
+    judged = 0
+    skipped = 0
+    for plat, ty in combos:
+        for nm in names:
+            text = ctx.folder.eval_body(w, {"self._platform": plat, "self._type": ty, "self._name": nm, "self.platform": plat, "self.type": ty, "self.name": nm})
+            if not isinstance(text, str):
+                skipped += 1
+                continue
+            got = ctx.folder.eval_body(r, {r.params[1]: text, "self._platform": plat, "self.platform": plat})
+            if not (isinstance(got, (tuple, RaisesValue))):
+                skipped += 1
+                continue
+            judged += 1
+            rep.instance()
+            if got == (ty, nm):
+                rep.ok(f"header {plat}/{ty}/{nm}", f"{text!r} is read back as {got}", nontrivial=False)
+            else:
+                rep.violation("Acl._parse_type_name", f"{text!r} -> {got!r}", f"the header written for a {ty} ACL named {nm!r} on {plat} is read back as {got!r}: type or name do not survive (the entries are then parsed and rendered as the other type)", where(r), inp=f"Acl({text!r} + entries, platform={plat!r})")
+    if judged == 0:
+        rep.note(f"{rid} the header writer / reader could not be evaluated (not judged)")
+    elif skipped:
+        rep.note(f"{rid} {skipped} header witnesses could not be evaluated (not judged), {judged} judged")
+
+
 def member_numbers_symmetric(ctx: Ctx, rep: Report, rid: str = "R06.11") -> None:
     """The reader of a group keeps a member's number under the same conditions under which the member's writer writes it:
     `AddressAg.line` writes the number whenever it is non-zero, whatever the platform, so the group reader that stores
@@ -709,6 +747,7 @@ def run(ctx: Ctx, rep: Report, tier: str) -> None:
     container_render_order(ctx, rep)
     length_gates(ctx, rep)
     member_numbers_symmetric(ctx, rep)
+    header_round_trip(ctx, rep)
     # R06.13 the switches a container renders under are the switches its rebuilt members carry (C16 R16.9): a nested
     # group that does not receive protocol_nr renders names where the container's re-parse produces numbers
     from .c16 import settings_propagation
